@@ -1,6 +1,8 @@
 import FgaVerif.Proofs.Listener
 import FgaVerif.Proofs.ErrLog
 import FgaVerif.Proofs.AList
+import FgaVerif.Proofs.ParserImage
+import FgaVerif.Model.CstParse
 /-!
 # C09 — structurally invalid DSL is always rejected, wherever the defect occurs
 
@@ -20,9 +22,17 @@ error-recovered) and every position in it:
 * conversely, an accepted walk reflects the declaration: the relation is in the type with exactly the
   denotation of its CST (`declaration_reflected`).
 
-The grammar half is a property of the ANTLR parser, which this family does not model (no `.g4`→Lean
-recogniser was built); it is covered by the catalogue of injected violations on the real parser (oracle)
-and by C19's automaton equalities, and is **not proved**.
+The grammar half is a property of the ANTLR parser, whose runtime this family does not model.  What
+is established about it: (i) the grammar itself is translated on every run and compared with the
+automaton the parsers embed (C19); (ii) every parse tree for which the real parser reports no error is
+checked to be a derivation by that grammar, and every relation declaration in it to be the embedding of
+a typed CST (C19, C03) — and in that CST the structural violations are unrepresentable:
+`partials_single_operator` (an operator group has one operator: `a or b and c` has no CST),
+`accepted_declaration_structurally_valid` (the relation an accepted declaration is parsed to has no
+missing operand and at most one direct assignment, in first position), `direct_assignment_nonempty`.
+So an *accepted* document cannot contain them, given the two run-time checks.  **Not proved**: that
+ANTLR reports an error for every text outside the grammar in the first place; that is what the
+catalogue of injected violations exercises on the real parser (oracle).
 -/
 namespace FgaVerif.Props.C09
 open FgaVerif.Model FgaVerif.Model.Listener FgaVerif.Model.Cst
@@ -80,5 +90,55 @@ def tdBefore : TypeDef := { name := "doc", relations := [("viewer", .this)], md 
 example : dupDecl.body.wf = true ∧ AList.contains dupDecl.name.text tdBefore.relations = true := by decide
 example : (match walk none (Decl.tree dupDecl) { currentTypeDef := some tdBefore } with
            | .ok s => s.errors.length | .error _ => 0) = 1 := by decide
+
+
+/-! ### the grammar half, through the typed concrete syntax
+
+    The structural violations of the catalogue are *unrepresentable* in the typed CST of
+    `Model/Cst.lean`: an operator group carries one operator, operands other than the first cannot be a
+    direct assignment, a restriction list has a first element.  Every relation declaration of every
+    error-free real parse tree is checked at run time to be the embedding of such a CST
+    (`embeddingOf`, C03), so for accepted documents the following are facts about what was parsed. -/
+
+def isOpTok : Tree → Bool
+  | .tok ty _ _ _ _ => ty == "OR" || ty == "AND" || ty == "BUT_NOT"
+  | _ => false
+
+theorem itemND_not_opTok : ∀ (i : ItemND), isOpTok (ItemND.tree i) = false
+  | .rw r => by simp [ItemND.tree, Rw.grouping, isOpTok]
+  | .paren (.ofDef _ _ _) => by simp [ItemND.tree, RecND.tree, isOpTok]
+  | .paren (.ofRec _ _ _) => by simp [ItemND.tree, RecND.tree, isOpTok]
+
+/-- **one operator per group**: every operator token among the children of a `relationDefPartials`
+    node of a CST is the group's operator — `a or b and c` has no CST -/
+theorem partials_single_operator (op : Op) : ∀ (items : Items), ∀ c ∈ Items.trees op items,
+    isOpTok c = true → c = opTok op
+  | .one w1 w2 i, c, hc, ho => by
+    simp only [Items.trees, List.mem_cons, List.mem_nil_iff, or_false] at hc
+    rcases hc with rfl | rfl | rfl | rfl
+    · simp [ws, tokT, isOpTok] at ho
+    · rfl
+    · simp [ws, tokT, isOpTok] at ho
+    · rw [itemND_not_opTok] at ho; cases ho
+  | .cons w1 w2 i rest, c, hc, ho => by
+    simp only [Items.trees, List.mem_append, List.mem_cons, List.mem_nil_iff, or_false] at hc
+    rcases hc with (rfl | rfl | rfl | rfl) | hc
+    · simp [ws, tokT, isOpTok] at ho
+    · rfl
+    · simp [ws, tokT, isOpTok] at ho
+    · rw [itemND_not_opTok] at ho; cases ho
+    · exact partials_single_operator op rest c hc ho
+
+/-- **a direct assignment occurs at most once and only in first position**, and no operand is missing,
+    in the relation that a real, accepted relation declaration is parsed to -/
+theorem accepted_declaration_structurally_valid (t : Tree) (d : Decl) (h : embeddingOf t = some d) :
+    d.body.wf = true ∧ noNil (Def.den d.body) = true ∧
+    (countThis (Def.den d.body) = 0 ∨
+      (countThis (Def.den d.body) = 1 ∧ Printer.isFirstPosition (Def.den d.body) = true)) := by
+  obtain ⟨hwf, _⟩ := embeddingOf_sound t d h
+  exact ⟨hwf, def_props d.body hwf⟩
+
+/-- a restriction list of a CST is never empty -/
+theorem direct_assignment_nonempty (d : Direct) : d.den ≠ [] := by simp [Direct.den]
 
 end FgaVerif.Props.C09
